@@ -65,9 +65,9 @@ Theorem nonzero_nd_spec : forall bidx bs lt,
 Proof. exact nonzero_nd_l. Qed.
 Print Assumptions nonzero_nd_spec.
 
-(* MLStructure.nonzero with its dispatch on the number of levels *)
+(* MLStructure.nonzero with its dispatch on the number of levels (one level included:
+   lower_tri filters the level pattern itself) *)
 Theorem nonzero_spec : forall bs bidx lt, length bs = length bidx ->
-  (lt = true -> length bidx <> 1%nat) ->
   nonzero bs bidx lt = Some (filter (keep lt) (kron_pattern bs bidx)).
 Proof. exact nonzero_spec_l. Qed.
 Print Assumptions nonzero_spec.
